@@ -47,6 +47,14 @@ def handle (toks : List String) : String :=
     match parseNat? k with
     | some k => showRat (lam k)
     | none => "bad-op"
+  -- reach N t x                    law of the walk after t steps (reachRow = reachBy, lemma reachRow_get)
+  | ["reach", n, t, x] =>
+    match parseNat? n, parseNat? t, parseNat? x with
+    | some n, some t, some x =>
+      match (reachRow n t)[x]? with
+      | some q => showRat q
+      | none => "none"
+    | _, _, _ => "bad-op"
   -- acc v nOld nNew                acceptance probability of the length rule (v = stated | asis)
   | ["acc", v, a, b] =>
     match parseNat? a, parseNat? b with
